@@ -507,12 +507,16 @@ fn build_root(p: &Value, n: u64, lay: &str, ord: &str) -> RootBuilder {
     let named = u(p, "named");
     let blocks = u(p, "blocks");
     let style = s(p, "style");
+    let plain = p["nnh"].as_str().unwrap_or("flag") == "plain";
     let mut b = RootBuilder::new(root_version(u(p, "ver")));
     for i in order(ord, n) {
         let a = 2 * i;
         let locale = block_locale(blocks, i);
         let nm = is_named(named, i);
-        let content = if nm { ContentFlags::INSTALL } else { ContentFlags::INSTALL | ContentFlags::NO_NAME_HASH };
+        // nnh = "flag": files without a name go to blocks that carry NO_NAME_HASH (no name-hash array on disk);
+        // nnh = "plain": they are added like add_file(.., None, locale, INSTALL) - the block keeps its name-hash
+        // array (hash 0 for them) and may hold named files as well
+        let content = if nm || plain { ContentFlags::INSTALL } else { ContentFlags::INSTALL | ContentFlags::NO_NAME_HASH };
         let path = path_of(&style, a);
         b.add_file(
             FileDataId::new(fdid_of(lay, n, a)),
